@@ -23,6 +23,8 @@ package bal_gslb
 //       when no other non-blackhole sub-cluster with positive weight exists. Not judged:
 //       RetryTime > retryMax+crossRetry (only S1), whether zero/negative-weight sub-clusters may
 //       serve cross retries (statement silent).
+//   Weights are the CONFIGURED weights; with slow start enabled (part E) the effective weights
+//   that checkSlowStart/initSlowStart/updateSlowStart compute never enter the verdict.
 //
 // Randomness is owned, not sampled:
 //   * randomSelectExclude seeds a private generator with time.Now().UnixNano(). Every execution
@@ -231,6 +233,72 @@ type c03Env struct {
 	bal          *BalanceGslb
 	subs         []*c03RS
 	rm, cr, mode int
+	ss           int // slow start time in seconds (0 = off)
+}
+
+// ssState returns the real slow-start bookkeeping of a model backend (read-only).
+func (e *c03Env) ssState(rb *c03RB) (bal_slb.VerifC03SS, bool) {
+	for _, sub := range e.bal.subClusters {
+		if sub.Name != rb.sub.name {
+			continue
+		}
+		ps := sub.backends.VerifC03Backends()
+		st := sub.backends.VerifC03SlowStart()
+		for j, p := range ps {
+			if p == rb.ptr {
+				return st[j], true
+			}
+		}
+	}
+	return bal_slb.VerifC03SS{}, false
+}
+
+// ssClass names the slow-start input class of a violation (signature suffix). The verdict itself
+// is judged against configured weights only; the suffix separates root causes and is only given
+// when the slow-start bookkeeping of the real object explains the whole violation:
+//   returned=true  (a backend with configured weight <= 0 was returned)
+//     :slow-start-stale-final    its slow-start target (final) differs from its configured weight
+//     :slow-start-phase          it is in its slow-start phase
+//   returned=false (error although bks = all available backends with configured weight > 0)
+//     :slow-start-ramp-weight-0  every one of them is in its slow-start phase with effective weight 0
+//     :slow-start-stale-final    every one has effective weight <= 0 and at least one of them has a
+//                                slow-start target that differs from its configured weight
+func (e *c03Env) ssClass(bks []*c03RB, returned bool) string {
+	if e.ss <= 0 || len(bks) == 0 {
+		return ""
+	}
+	stale, phase := false, false
+	for _, rb := range bks {
+		st, ok := e.ssState(rb)
+		if !ok {
+			return ""
+		}
+		switch {
+		case returned && st.Final != rb.w*100:
+			stale = true
+		case returned && st.InSlowStart:
+			phase = true
+		case returned:
+			return ""
+		case st.Weight > 0:
+			return ""
+		case st.Final != rb.w*100:
+			stale = true
+		case st.InSlowStart:
+			phase = true
+		default:
+			return ""
+		}
+	}
+	switch {
+	case stale:
+		return ":slow-start-stale-final"
+	case phase && returned:
+		return ":slow-start-phase"
+	case phase:
+		return ":slow-start-ramp-weight-0"
+	}
+	return ""
 }
 
 func (e *c03Env) sub(name string) *c03RS {
@@ -346,10 +414,14 @@ func (e *c03Env) dump() string {
 				sb.WriteByte(',')
 			}
 			fmt.Fprintf(&sb, "w%d/avail=%v/conn=%d", b.w, b.ptr.Avail(), b.ptr.ConnNum())
+			if e.ss > 0 {
+				st, _ := e.ssState(b)
+				fmt.Fprintf(&sb, "/ss(effective=%d,final=%d,in=%v,restart=%v)", st.Weight, st.Final, st.InSlowStart, b.ptr.GetRestart())
+			}
 		}
 		sb.WriteString("] ")
 	}
-	fmt.Fprintf(&sb, "mode=%s retryMax=%d crossRetry=%d single=%v", c03Modes[e.mode], e.rm, e.cr, e.bal.single)
+	fmt.Fprintf(&sb, "mode=%s retryMax=%d crossRetry=%d single=%v slowStart=%ds", c03Modes[e.mode], e.rm, e.cr, e.bal.single, e.ss)
 	return sb.String()
 }
 
@@ -524,7 +596,7 @@ func (h *c03H) check(e *c03Env, idf func() string, hist func() string, req *bfe_
 			bad = true
 		}
 		if rb.w <= 0 {
-			h.viol("backend:nonpositive-weight:returned:"+mode, idf, det("returned backend has non-positive weight"))
+			h.viol("backend:nonpositive-weight:returned:"+mode+e.ssClass([]*c03RB{rb}, true), idf, det("returned backend has non-positive configured weight"))
 			bad = true
 		}
 		if bad {
@@ -551,7 +623,13 @@ func (h *c03H) check(e *c03Env, idf func() string, hist func() string, req *bfe_
 		}
 	case c03StInCluster:
 		if err != nil {
-			h.viol("error-iff:in-cluster-eligible:error:"+mode, idf, det("first-choice sub-cluster has an eligible backend but Balance reported an error"))
+			var el []*c03RB
+			for _, b := range fs.bks {
+				if b.w > 0 && b.ptr.Avail() {
+					el = append(el, b)
+				}
+			}
+			h.viol("error-iff:in-cluster-eligible:error:"+mode+e.ssClass(el, false), idf, det("first-choice sub-cluster has an eligible backend (available, configured weight > 0) but Balance reported an error"))
 		} else if rb.sub.bh {
 			h.viol("blackhole:in-cluster-choice:forwarded", idf, det("first-choice traffic forwarded to a backend of GSLB_BLACKHOLE"))
 		} else if rb.sub.w <= 0 {
@@ -1037,6 +1115,189 @@ func (h *c03H) partD(idx *int, maxSubs int, subWs []int) {
 	}
 }
 
+// ---------------------------------------------------------------- part E: slow start / restart flag / reload adding a backend
+
+// One normal sub-cluster with n backends, slow start time ss (0 = off as control). All operation
+// sequences of length <= L ending in a Balance over
+//   0            Balance with a fresh request (checked against CONFIGURED weights)
+//   1..n         backend i goes down (SetAvail(false), as UpdateStatus does)
+//   n+1..2n      health check brings backend i back (SetRestart(true); SetAvail(true), as
+//                health_check.go does); not enabled while the backend is up
+//   2n+1..3n     IncConnNum(i)                                   (WLC only)
+//   +0,+1        BackendReload that ADDS one backend with weight 0 / 1 (BalanceRR.Update marks it
+//                restarted); at most once per sequence
+//   +2           BackendReload that rotates the configured weight of backend 0 through 0,1,2
+//   +3,+4        the clock advances by ss/100 s / by ss s (fake synctest clock; ss=0: 1 s)
+// The slow-start path changes the *effective* weights; the statement is judged on the
+// configured ones: a backend configured with weight <= 0 is never returned, and an error is
+// reported iff no available backend with configured weight > 0 exists.
+func (h *c03H) partE(idx *int, minN, maxN int, bws []int, sss []int, L int) {
+	var opts []c03Bk
+	for _, w := range bws {
+		opts = append(opts, c03Bk{w, true}, c03Bk{w, false})
+	}
+	for n := minN; n <= maxN; n++ {
+		bks := make([]c03Bk, n)
+		var rec func(i int)
+		rec = func(i int) {
+			if i < n {
+				for _, o := range opts {
+					bks[i] = o
+					rec(i + 1)
+				}
+				return
+			}
+			*idx++
+			if !h.r.Mine(*idx) {
+				return
+			}
+			cfg := c03Cfg{{"msub", 1, append([]c03Bk(nil), bks...)}}
+			for _, ss := range sss {
+				ss := ss
+				synctest.Test(h.t, func(*testing.T) { h.partEcfg(cfg, n, ss, L) })
+			}
+		}
+		rec(0)
+	}
+}
+
+func (h *c03H) partEcfg(cfg c03Cfg, n, ss, L int) {
+	for mode := 0; mode < 3; mode++ {
+		nconn := 0
+		if mode == 1 {
+			nconn = n
+		}
+		base := 1 + 2*n + nconn
+		nops := base + 5
+		ip := c03KeyPool[0]
+		key := []byte(ip)
+		for l := 1; l <= L; l++ {
+			seq := make([]int, l)
+			for {
+				idf := func() string { return vk.Key("E", cfg.String(), ss, c03Modes[mode], vk.IntsString(seq)) }
+				if ok := h.partEvalid(seq, n, base); ok && h.r.CaseN(idf) {
+					h.partErun(idf, cfg, n, ss, mode, base, seq, ip, key)
+					h.r.NontrivialN(1)
+				}
+				i := l - 2
+				for ; i >= 0; i-- {
+					seq[i]++
+					if seq[i] < nops {
+						break
+					}
+					seq[i] = 0
+				}
+				if i < 0 {
+					break
+				}
+			}
+		}
+	}
+}
+
+// partEvalid prunes sequences that add a backend twice (statically decidable).
+func (h *c03H) partEvalid(seq []int, n, base int) bool {
+	adds := 0
+	for _, op := range seq {
+		if op == base || op == base+1 {
+			adds++
+		}
+	}
+	return adds <= 1
+}
+
+func (h *c03H) partErun(idf func() string, cfg c03Cfg, n, ss, mode, base int, seq []int, ip net.IP, key []byte) {
+	e, err := c03Build(cfg, mode, 1, 0)
+	if err != nil {
+		h.t.Fatalf("c03: build %s: %v", cfg, err)
+	}
+	e.ss = ss
+	e.bal.SetSlowStart(cluster_conf.BackendBasic{SlowStartTime: &ss})
+	s := e.subs[0]
+	var log []string
+	hist := func() string { return strings.Join(log, " ; ") }
+	reload := func() {
+		// the backend table as the harness now wants it: current configured weights
+		c2 := c03Cfg{{"msub", 1, nil}}
+		for _, b := range s.bks {
+			c2[0].bks = append(c2[0].bks, c03Bk{b.w, true})
+		}
+		e.bal.BackendReload(c03BackendConf(c2))
+		ps := e.bal.subClusters[0].backends.VerifC03Backends()
+		if len(ps) != len(s.bks) {
+			h.t.Fatalf("c03: BackendReload left %d backends, want %d", len(ps), len(s.bks))
+		}
+		for _, p := range ps {
+			if e.backend(p) != nil {
+				continue
+			}
+			bound := false
+			for i, b := range s.bks {
+				if b.ptr == nil && c03BkName[c03SubNo("msub")][i] == p.Name {
+					b.ptr, bound = p, true
+				}
+			}
+			if !bound {
+				h.t.Fatalf("c03: unknown backend %s after BackendReload", p.Name)
+			}
+		}
+	}
+	for _, op := range seq {
+		switch {
+		case op == 0:
+			rb, berr, p := h.check(e, idf, hist, c03Req(ip), key, -1)
+			if p {
+				return
+			}
+			if berr == nil && rb != nil {
+				log = append(log, "Balance->"+rb.ptr.Name)
+			} else {
+				log = append(log, fmt.Sprintf("Balance->%v", berr))
+			}
+		case op <= n:
+			b := s.bks[op-1]
+			b.ptr.SetAvail(false)
+			log = append(log, fmt.Sprintf("SetAvail(b%d,false)", op-1))
+		case op <= 2*n:
+			b := s.bks[op-n-1]
+			if b.ptr.Avail() {
+				log = append(log, fmt.Sprintf("healthcheck(b%d):up-already", op-n-1))
+				break
+			}
+			b.ptr.SetRestart(true)
+			b.ptr.SetAvail(true)
+			log = append(log, fmt.Sprintf("healthcheck(b%d):SetRestart(true),SetAvail(true)", op-n-1))
+		case op < base:
+			b := s.bks[op-2*n-1]
+			b.ptr.IncConnNum()
+			log = append(log, fmt.Sprintf("IncConnNum(b%d)", op-2*n-1))
+		case op == base || op == base+1:
+			w := op - base
+			s.bks = append(s.bks, &c03RB{sub: s, idx: len(s.bks), w: w})
+			reload()
+			log = append(log, fmt.Sprintf("BackendReload(+b%d weight %d)", len(s.bks)-1, w))
+		case op == base+2:
+			s.bks[0].w = (s.bks[0].w + 1) % 3
+			reload()
+			log = append(log, fmt.Sprintf("BackendReload(b0.weight=%d)", s.bks[0].w))
+		case op == base+3:
+			d := time.Duration(ss) * time.Second / 100
+			if ss == 0 {
+				d = time.Second
+			}
+			time.Sleep(d)
+			log = append(log, fmt.Sprintf("clock+%v", d))
+		default:
+			d := time.Duration(ss) * time.Second
+			if ss == 0 {
+				d = time.Second
+			}
+			time.Sleep(d)
+			log = append(log, fmt.Sprintf("clock+%v", d))
+		}
+	}
+}
+
 // ---------------------------------------------------------------- entry point
 
 func TestVerifC03(t *testing.T) {
@@ -1086,20 +1347,27 @@ func TestVerifC03(t *testing.T) {
 		h.partB(&idx, 1, 3, []int{-1, 0, 1, 2}, 5)
 		h.partB(&idx, 4, 4, []int{0, 1, 2}, 4)
 		lap("B")
+		h.partE(&idx, 3, 3, []int{0, 1, 2}, []int{0, 30}, 4)
+		h.partE(&idx, 2, 2, []int{0, 1, 2}, []int{0, 30}, 5)
+		h.partE(&idx, 1, 1, []int{-1, 0, 1, 2}, []int{0, 1, 30}, 5)
+		lap("E")
 		h.partC(&idx, 3, subWs, 32)
 		lap("C")
 		h.partD(&idx, 3, subWs)
 		lap("D")
 		h.partA(&idx, 3, subWs, subWs, profsT, bhProfs, retriesT, 4)
-		r.Set("bounds", "A: 1-3 sub-clusters from {Asub,GSLB_BLACKHOLE,msub,zsub}, sub-cluster weights {-1,0,1,2}, 8 backend profiles (0-3 backends, weights 0..2, up/down), blackhole with/without backends, 3 modes, (retryMax,crossRetry) in {00,01,10,11,21,02}, RetryTime 0..budget+1, retry loop from RetryTime 0 to depth min(budget+2,4), lcm(k,k+1) generator answers per cross-stage call (k for crossRetry 2); B: 1-3 backends w{-1,0,1,2} x up/down with op sequences <=5 and 4 backends w{0,1,2} with op sequences <=4; C: 32 seeds; D: all Reload pairs, weights {-1,0,1,2}")
+		r.Set("bounds", "A: 1-3 sub-clusters from {Asub,GSLB_BLACKHOLE,msub,zsub}, sub-cluster weights {-1,0,1,2}, 8 backend profiles (0-3 backends, weights 0..2, up/down), blackhole with/without backends, 3 modes, (retryMax,crossRetry) in {00,01,10,11,21,02}, RetryTime 0..budget+1, retry loop from RetryTime 0 to depth min(budget+2,4), lcm(k,k+1) generator answers per cross-stage call (k for crossRetry 2); B: 1-3 backends w{-1,0,1,2} x up/down with op sequences <=5 and 4 backends w{0,1,2} with op sequences <=4; C: 32 seeds; D: all Reload pairs, weights {-1,0,1,2}; E (slow start 0/30 s, restart flag, reload adding a backend, clock steps): 3 backends w{0,1,2} op sequences <=4, 2 backends w{0,1,2} op sequences <=5, 1 backend w{-1,0,1,2} slow start 0/1/30 s op sequences <=5")
 	} else {
 		h.partB(&idx, 1, 3, []int{-1, 0, 1, 2}, 4)
 		lap("B")
+		h.partE(&idx, 2, 2, []int{0, 1, 2}, []int{0, 30}, 4)
+		h.partE(&idx, 1, 1, []int{-1, 0, 1, 2}, []int{0, 30}, 5)
+		lap("E")
 		h.partC(&idx, 3, []int{0, 1, 2}, 8)
 		lap("C")
 		h.partD(&idx, 3, []int{0, 1, 2})
 		lap("D")
 		h.partA(&idx, 3, subWs, []int{0, 1, 2}, profsQ, bhProfs, retriesQ, 3)
-		r.Set("bounds", "A: 1-3 sub-clusters from {Asub,GSLB_BLACKHOLE,msub,zsub}, sub-cluster weights {-1,0,1,2} ({0,1,2} for 3-sub-cluster layouts), 5 backend profiles (0-2 backends), blackhole with/without backends, 3 modes, (retryMax,crossRetry) in {0,1}^2, RetryTime 0..budget+1, retry loop from RetryTime 0 to depth min(budget+2,3), k generator answers per cross-stage call; B: 1-3 backends w{-1,0,1,2} x up/down, op sequences <=4; C: 8 seeds; D: all Reload pairs, weights {0,1,2}")
+		r.Set("bounds", "A: 1-3 sub-clusters from {Asub,GSLB_BLACKHOLE,msub,zsub}, sub-cluster weights {-1,0,1,2} ({0,1,2} for 3-sub-cluster layouts), 5 backend profiles (0-2 backends), blackhole with/without backends, 3 modes, (retryMax,crossRetry) in {0,1}^2, RetryTime 0..budget+1, retry loop from RetryTime 0 to depth min(budget+2,3), k generator answers per cross-stage call; B: 1-3 backends w{-1,0,1,2} x up/down, op sequences <=4; C: 8 seeds; D: all Reload pairs, weights {0,1,2}; E (slow start 0/30 s, restart flag, reload adding a backend, clock steps): 2 backends w{0,1,2} op sequences <=4, 1 backend w{-1,0,1,2} op sequences <=5")
 	}
 }
